@@ -86,6 +86,12 @@ impl<'a, L> Engine<'a, L> {
                         .or_insert_with(|| Some(g_id.clone()));
                 }
             }
+            if let Some(g) = q.g() {
+                if g.is_bnode() {
+                    // a blank node naming a graph must keep its identity wherever else it is used
+                    self.bnode_graph.insert(g.as_id(), None);
+                }
+            }
             let is = self.index(g_id.clone(), s_id.clone());
             if q.g().is_some() {
                 let ig = self.index(" ".to_string(), g_id.clone());
